@@ -58,9 +58,9 @@ def _post(src, dst, before_src, before_dst, after_src, after_dst, selected_ids, 
                 continue                       # present on both sides: C14's business
             nested = "/" in rel
             top = rel.split("/")[0]
+            if _excluded(rel, exclude):
+                continue                       # a name matching the exclude pattern at any level: C13 says nothing about it (C15: never created)
             if not newly:
-                if _excluded(rel if not nested else top, exclude) or (nested and _excluded(rel.split("/")[-1], exclude) and (pre + top) in before_dst):
-                    continue
                 if nested and not recursive:
                     continue
             if after_dst.get(k) != v:
@@ -223,7 +223,141 @@ def h_docs(entry: int, pres: int, dstate: int, pstate: int, didx: int, strat_cop
     assert out == "ok" and not problems
 
 
+# ---------------------------------------------------------------------------------------- argument reuse, look-alike names, half-made jobs
+LOOKALIKES = ["signac_statepoint.json.orig", "signac_job_document.json.bak", "signac_statepointXjson", "signac_statepoint.jsonl"]
+
+
+def _reuse_case(entry, first, second, pres2):
+    """the SAME exclude list object is passed to two consecutive syncs (first with doc_sync `first`, then `second`): the second sync must
+    behave as if it had been given a fresh list - with COPY the (source-only) document file is a non-excluded source file and must arrive;
+    a job that is new to the destination in the second sync arrives with state point and document"""
+    problems = []
+    with SL.Scratch() as sc:
+        src, dst = SL.build(sc.root, 3, 1, 0, 0, 1, 0)          # job0 on both sides, document only in the source
+        ex = ["nothing-matches-this"]
+        kw1 = dict(exclude=ex, doc_sync=SL.doc_sync(first), check_schema=False)
+        kw2 = dict(exclude=ex, doc_sync=SL.doc_sync(second), check_schema=False, strategy=SL.strategy(1))
+        sj, dj = src.open_job(SL.SPS[0]), dst.open_job(SL.SPS[0])
+        if entry == 0:
+            c1, c2 = (lambda: dst.sync(src, **kw1)), (lambda: dst.sync(src, **kw2))
+        else:
+            kw1.pop("check_schema"), kw2.pop("check_schema")
+            c1, c2 = (lambda: dj.sync(sj, **kw1)), (lambda: dj.sync(sj, **kw2))
+        o1 = SL.outcome(c1)
+        if o1 != "ok":
+            return [("first sync did not return", o1)]
+        if pres2 and entry == 0:
+            j1 = src.open_job(SL.SPS[1]).init()
+            SL.put(j1.fn("h"), b"H-src", SL.T_MID)
+            j1.document["j1"] = 1
+        bs = SL.snap(src.path)
+        o2 = SL.outcome(c2)
+        if o2 != "ok":
+            return [("second sync did not return", o2)]
+        ad = SL.snap(dst.path)
+        if SL.snap(src.path) != bs:
+            problems.append(("source changed",))
+        for jid in [sj.id] + ([src.open_job(SL.SPS[1]).id] if (pres2 and entry == 0) else []):
+            pre = "workspace/%s/" % jid
+            if ad.get(pre + SPFN) is None:
+                problems.append(("job without state point file in the destination", jid))
+            want = json.loads(bs[pre + DOCFN])
+            got = json.loads(ad.get(pre + DOCFN) or b"{}")
+            if second != 4 and got != want:
+                problems.append(("source document did not arrive on the second sync that reuses the exclude list", jid, got, want, first, second))
+    return problems
+
+
+def h_reuse(entry: int, first: int, second: int, pres2: bool):
+    assert 0 <= entry <= 1 and first in (0, 3, 4) and second in (0, 1, 3, 5)
+    fresh_path()
+    entry, first, second, pres2 = ci(entry, 0, 1), pick([0, 3, 4], [0, 3, 4].index(ci(first, 0, 4))), pick([0, 1, 3, 5], [0, 1, 3, 5].index(ci(second, 0, 5))), cb(pres2)
+    with nt():
+        problems = _reuse_case(entry, first, second, pres2)
+    reached()
+    assert not problems
+
+
+def _lookalike_case(entry, nm, nested, recursive, didx):
+    """source-only data files whose names merely START like signac's own file names are ordinary non-excluded files"""
+    problems = []
+    name = LOOKALIKES[nm]
+    rel = ("sub/" + name) if nested else name
+    with SL.Scratch() as sc:
+        src, dst = SL.build(sc.root, 3, 0, 0, 0, 0, 0)
+        sj, dj = src.open_job(SL.SPS[0]), dst.open_job(SL.SPS[0])
+        SL.put(sj.fn(rel), b"payload", SL.T_MID)
+        if nested:
+            SL.put(sj.fn("sub/c"), b"C", SL.T_MID)
+            SL.put(dj.fn("sub/c"), b"C", SL.T_MID)      # the sub-directory exists on both sides: compared level by level
+        bs = SL.snap(src.path)
+        kw = dict(recursive=recursive, doc_sync=SL.doc_sync(didx), check_schema=False)
+        if entry == 0:
+            call = lambda: dst.sync(src, **kw)
+        else:
+            kw.pop("check_schema")
+            call = lambda: dj.sync(sj, **kw)
+        out = SL.outcome(call)
+        if out != "ok":
+            return [("sync did not return", out)]
+        ad = SL.snap(dst.path)
+        if SL.snap(src.path) != bs:
+            problems.append(("source changed",))
+        if (not nested or recursive) and ad.get("workspace/%s/%s" % (sj.id, rel)) != b"payload":
+            problems.append(("non-excluded source file not copied", rel))
+    return problems
+
+
+def h_lookalike(entry: int, nm: int, nested: bool, recursive: bool, didx: int):
+    assert 0 <= entry <= 1 and 0 <= nm < len(LOOKALIKES) and didx in (0, 4)
+    fresh_path()
+    entry, nm, nested, recursive, didx = ci(entry, 0, 1), ci(nm, 0, len(LOOKALIKES) - 1), cb(nested), cb(recursive), pick([0, 4], 0 if didx == 0 else 1)
+    with nt():
+        problems = _lookalike_case(entry, nm, nested, recursive, didx)
+    reached()
+    assert not problems
+
+
+def _halfmade_case(entry, with_file, with_doc):
+    """the destination holds an EMPTY directory named by the id of a source job (a job whose creation was interrupted): after a
+    successful sync the job exists in the destination with the same state point"""
+    problems = []
+    with SL.Scratch() as sc:
+        src, dst = SL.build(sc.root, 1, 1 if with_file else 0, 0, 0, 1 if with_doc else 0, 0)
+        sj = src.open_job(SL.SPS[0])
+        os.makedirs(os.path.join(dst.workspace, sj.id))
+        src, dst = signac.get_project(src.path, search=False), signac.get_project(dst.path, search=False)
+        bs = SL.snap(src.path)
+        if entry == 0:
+            call = lambda: dst.sync(src, check_schema=False)
+        else:
+            call = lambda: dst.open_job(id=sj.id).sync(src.open_job(SL.SPS[0]))
+        out = SL.outcome(call)
+        if out != "ok":
+            return []      # refusing is fine; returning without the job is not
+        ad = SL.snap(dst.path)
+        raw = ad.get("workspace/%s/%s" % (sj.id, SPFN))
+        if raw is None or json.loads(raw) != SL.SPS[0]:
+            problems.append(("sync returned, but the selected job has no (or a different) state point in the destination", raw))
+        if SL.snap(src.path) != bs:
+            problems.append(("source changed",))
+    return problems
+
+
+def h_halfmade(entry: int, with_file: bool, with_doc: bool):
+    assert 0 <= entry <= 1
+    fresh_path()
+    entry, with_file, with_doc = ci(entry, 0, 1), cb(with_file), cb(with_doc)
+    with nt():
+        problems = _halfmade_case(entry, with_file, with_doc)
+    reached()
+    assert not problems
+
+
 HARNESSES = [
     dict(name="h_files", twin="h_files__reach", timeout=(900, 3000), parts=(36, 36), unblock=True),
     dict(name="h_docs", timeout=(900, 3000), parts=(7, 7), unblock=True),
+    dict(name="h_reuse", timeout=(300, 600), unblock=True),
+    dict(name="h_lookalike", timeout=(300, 600), unblock=True),
+    dict(name="h_halfmade", timeout=(300, 600), unblock=True),
 ]
